@@ -14,7 +14,7 @@ reg(Spec("C15", "c15_timer.cpp", needs=("lib",),
               "Skip(k) with k resolved against the horizon the timer reports: 0, 1, h-1, h, h/2, random) on the real "
               "Teakra::Timer; oracle = cycle-exact model + twin doing k x Tick() for every Skip(k). core_timing_pair (20% of the cases): two "
               "timers registered on one CoreTiming, configure/restart/pause/tick/CoreTiming::Skip(max): the returned k must be min(max, both "
-              "horizons) and both timers must equal a twin pair advanced by k x CoreTiming::Tick(). timer_facade (2% of the cases): both timers through MMIO on a Teakra whose DSP idles (start, configuration word with restart strobe, event write, Run): counter read-back and ICU lines 0xA / 0x9 vs the model. Non-trivial = the "
+              "horizons) and both timers must equal a twin pair advanced by k x CoreTiming::Tick(). timer_facade (2% of the cases): both timers through MMIO on a Teakra whose DSP idles (start, configuration word with restart strobe, event write, Run): counter read-back and ICU lines 0xA / 0x9 vs the model. Half of the timer_facade histories never acknowledge the interrupt controller: every 1 -> 0 crossing must still raise the core line (observed as the line's pending bit). Non-trivial = the "
               "history contains a Skip(k>=1) on a running timer or a 1->0 crossing; distinct by hash of the op list.",
          assumptions=["time scale stays 0 and count mode < 4 (other values are deliberate ASSERTs in Tick/Restart)",
                       "Restart in free-running mode is outside the property's statement: reload or no-op are both accepted",
@@ -26,7 +26,7 @@ reg(Spec("C16", "c16_btdmp.cpp", needs=("lib",),
               "aimed at frame boundaries, Skip(k) with k in {0,1,h-1,h,random} against the reported horizon) on the real "
               "Teakra::Btdmp with a period chosen per history from {1,2,3,7,1000,4096,65535} U small U uniform; oracle = "
               "FIFO/frame-clock model + twin doing k x Tick() for every Skip(k) + conservation of words after a final drain. "
-              "core_timing_btdmp (20% of the cases): the port next to a free-running timer on one CoreTiming; CoreTiming::Skip(max) vs that many CoreTiming::Tick() on a twin (frames per operation, flags, interrupts), also while transmitting with an empty queue. core_timing_btdmp also runs without an audio callback installed; btdmp_facade (10% of the cases): both ports through MMIO on a Teakra whose DSP idles (send, flush, enable, Run up to three periods): port 0's frames, both status words and ICU line 0xB vs two instances of the model. Non-trivial = at least one frame carrying a real (non-filler) word; distinct by hash of (period, op list).",
+              "core_timing_btdmp (20% of the cases): the port next to a free-running timer on one CoreTiming; CoreTiming::Skip(max) vs that many CoreTiming::Tick() on a twin (frames per operation, flags, interrupts), also while transmitting with an empty queue. core_timing_btdmp also runs without an audio callback installed; btdmp_facade (10% of the cases): both ports through MMIO on a Teakra whose DSP idles (send, flush, enable, Run up to three periods): port 0's frames, both status words and ICU line 0xB vs two instances of the model. In a third of the histories every third word is 0xFFFF / 0x0000 / 0x8000 / 0x7FFF instead of its serial tag. Non-trivial = at least one frame carrying a real (non-filler) word; distinct by hash of (period, op list).",
          assumptions=["period >= 1 and fixed before the first tick (not reachable from MMIO; the source calls it a placeholder)",
                       "the frame clock only advances while transmission is enabled and keeps its phase across disable/enable",
                       "per skip at most min(h, 3*period+5, 20000) cycles so the ticking twin stays affordable"]))
@@ -67,7 +67,7 @@ reg(Spec("C02", "c02_decode.cpp", needs=("shim", "optable"), custom="exhaustive"
               "(word, second word) is the same right after another second word of the same opcode as after another opcode; O6 a two-word "
               "opcode executed twice at one address with different second words behaves, the second time, as on a second core that never "
               "ran the first; O7 every two-word non-branching form under an active single-instruction repeat: the next fetch is never its operand word (fails on the unchanged tree: known finding #18); one full pass of the project's test generator: no undefined word, a second program word only for two-word forms; O4 every bit declared Unused<> in the table text, flipped, on 32/128 generated states: same text, same "
-              "execution, and declared set == set of bits the recorder shows to be don't-care. Non-trivial = defined word; distinct = the word.",
+              "execution, and declared set == set of bits the recorder shows to be don't-care. O8 a repeated one-word instruction at the end of an active block (passes left) is never followed by a fetch inside the two-word bkrep in front of the block. Non-trivial = defined word; distinct = the word.",
          assumptions=["control-transfer handlers (br, brr, call*, ret*, movpdw, mov_pc) are exempt from the pc-advance clause, not from the fetch clause",
                       "instructions ending in Unimplemented / deliberate ASSERT make no length claim",
                       "the test generator's view of the form is checked through its vectors in C01(b) (pc advance of every vector)"]))
@@ -94,7 +94,7 @@ reg(Spec("C20", "c20_words.cpp", needs=("shim", "optable"), custom="exhaustive",
               "annotated disassembly names; D2m: the same cases under a generated addressing configuration (both cmd modes, modulo "
               "/ bit reversal / end pointers / 7- and 16-bit steps, registers at buffer edges): every register named with a step "
               "++0/++1/--1/++s/++2/--2 ends where the plain 'modr rN,<same step>[,dmod]' leaves it from the same state; one full pass of the project's generator: the register the disassembler names is "
-              "pinned in its window. Non-trivial / distinct = (word, value).",
+              "pinned in its window. D1i also runs the read-modify-write forms set / rst / chng #imm16, W (what reads back is the written value, also when the word is unchanged); D4 block-repeat exits (running out / break) at depth 1..4 leave bcn - 1 and lp = (bcn - 1 != 0) in the state and in stt2 / icr. Non-trivial / distinct = (word, value).",
          assumptions=["golden layout transcribed from the pinned register.h and the verifier's flag strings (regression oracle)",
                       "D2 runs with modulo and bit reversal off, end-pointer modes off, stepi=5, stepj=-3, distinct marker addresses; D2m compares "
                       "against the interpreter's own plain modr forms (a metamorphic relation: same printed step => same step), the starred "
@@ -107,7 +107,7 @@ reg(Spec("C03", "c03_alu.cpp", needs=("shim", "optable_ref"),
               "and_, add, sub, add_p1, sub_p1, cmp*, moda not/neg/rnd/clr/clrr/inc/dec/copy, mov acc, lim, movr), stratified "
               "by (form, operation); state expanded from a rapidcheck-generated 64-bit value with boundary-biased 40-bit "
               "accumulators / 16-bit operands, sata in {0,1}, all ten flags random, operand cells poked; expected state built by "
-              "the independent exact-arithmetic model; compared on every field (frame condition) + no memory write. Non-trivial "
+              "the independent exact-arithmetic model; compared on every field (frame condition) + no memory write. One case in six first writes the accumulator extension through 'mov ##v, st0 / st1' (a second instruction: the ALU instruction runs on what the status-word write left). Non-trivial "
               "= an accumulator or flag changed; distinct by hash(opcode, second word, state).",
          assumptions=["which operation a first word names is read from the frozen reference's decode table (/verif/ref), not from the table under test (also C04, C08, C09, C10)", "addressing pinned to the linear case (modulo, bit reversal, end-pointer, stp16 off): stepping is C10's subject",
                       "product shifter neutral (ps=0): product reads are C04's subject", "no active loop, no pending interrupt",
@@ -155,7 +155,7 @@ reg(Spec("C08", "c08_stack.cpp", needs=("shim", "optable_ref"),
               "stack words); push X ; pop X for 13 push/pop families and every operand value; interrupt entry on int0-2 / "
               "vectored with and without context switch + reti/retic, the handler being the bare return or 'mov #v, stt0 ; reti/retic "
               "<cond>' with a flag condition that holds on v (and often fails on the interrupted stream's flags); cntx s ; cntx r, banke f twice (all 64 flag sets), bankr "
-              "(4 forms) twice. Non-trivial = the pair actually moved something (taken call, non-zero pushed value, banks "
+              "(4 forms) twice. A sixth of the plain interrupt cases interrupt 'rep #n ; inc a0' with the request latched in the cycle that executes rep: same final state as without the request. Non-trivial = the pair actually moved something (taken call, non-zero pushed value, banks "
               "differ); distinct by hash of the encoded case.",
          assumptions=["saturation disabled, no hardware loop active, single-instruction repeat off (the property's preconditions)",
                       "product shifter neutral for push/pop of p / Px (the pushed view is the shifted product, pop loads the raw register)",
@@ -171,7 +171,7 @@ reg(Spec("C09", "c09_loops.cpp", needs=("shim", "optable_ref"),
               "sequence that steps down by one per iteration and ends at 0, with exactly N+1 iterations; the block-repeat variant also "
               "inside 1..3 enclosing two-pass block repeats (counter read at nesting depth 1..4), counts from an immediate, r5, r6 or "
               "the low / high half of b0 preset to a value wider than 32 bits; programs in page 0, 2 or 3. frame_roundtrip: bkrepsto ; "
-              "bkreprst ([arrn] and [sp]) with 0..4 active frames holding 18-bit addresses is the identity, also (<= 1 active frame) when the visible counter is overwritten between the save and the restore. Non-trivial = the loop "
+              "bkreprst ([arrn] and [sp]) with 0..4 active frames holding 18-bit addresses is the identity, also (<= 1 active frame) when the visible counter is overwritten between the save and the restore. loop_unroll bodies may save every active loop frame to the stack and restore them (bkrepsto / bkreprst [sp], the identity); one program in eight starts with a repeat while an enabled interrupt request is already latched (service routine = reti). Non-trivial = the loop "
               "executed more instructions than the program has words / N >= 1 / >= 1 active frame.",
          assumptions=["a nested block repeat never ends on the same instruction as its enclosing block (a repeated single instruction may be the "
                       "last instruction of a block, the rep instruction itself never is)", "interrupts off; bodies contain no control flow and do not touch lc/repc/sp",
@@ -190,7 +190,7 @@ reg(Spec("C17", "c17_reset.cpp", needs=("shim", "optable"),
               "dirty / AHBM host accessors; a quarter of the cases on caller-supplied (zeroed) DSP memory; two real instances whose heap was pre-filled with different byte patterns; mode fresh: Q "
               "straight after construction on both; mode reset: construct;P;Reset;Q vs construct;Reset;Q; the observation (all "
               "registers incl. banks, memory digest, masked read-back of ~140 modelled MMIO registers, host views) and the ordered "
-              "callback log are compared after every call of Q; a dozen never-written plain-storage cells are read back before Q. Non-trivial = P dirties >= 3 kinds of state and Q is non-empty "
+              "callback log are compared after every call of Q; a dozen never-written plain-storage cells are read back before Q. 'loadraw' = the host (optionally after Reset()) stores bytes through the memory pointer it fetched at construction / into its own buffer; programs include a codebook search (hidden operand). Non-trivial = P dirties >= 3 kinds of state and Q is non-empty "
               "(fresh mode: Q non-empty); distinct by hash of the encoded case.",
          assumptions=["backing-storage bits of MMIO bit-field cells that no peripheral models are masked out of the observation",
                       "the external (AHBM) world is the caller's: both sides continue with a fresh external memory after Reset",
@@ -204,7 +204,7 @@ reg(Spec("C12", "c12_mmio.cpp", needs=("shim",),
               "DSP data path at the (relocatable) window base; CMDi reads, host SendData / SetSemaphore, and a bounded DMA start "
               "through 0x1DE = 0x40C0. After every op all ~130 side-effect-free documented registers are read back (through "
               "varying paths) and compared, on their documented bits, with the register-map model transcribed from the *.md "
-              "files. Half of the histories concentrate 70% of their writes on one peripheral block (timer 0/1, APBP, AHBM, MIU, DMA, ICU, audio 0/1, the coupling registers) with configuration values built from the documented fields. Host-side facade queries (DMAChan0Get*High, AHBMGet*) are interleaved with the register accesses: they return channel 0's words / the AHBM field and change no read-back. Non-trivial = an op changed the model; distinct by hash of the op list.",
+              "files. Half of the histories concentrate 70% of their writes on one peripheral block (timer 0/1, APBP, AHBM, MIU, DMA, ICU, audio 0/1, the coupling registers) with configuration values built from the documented fields. Host-side facade queries (DMAChan0Get*High, AHBMGet*) are interleaved with the register accesses: they return channel 0's words / the AHBM field and change no read-back. DMA starts also from external memory through a generated AHBM channel (bursts, transfers ending inside a burst); host ClearSemaphore / MaskSemaphore are interleaved. Non-trivial = an op changed the model; distinct by hash of the op list.",
          assumptions=["timer restart is only written together with a count mode < 4 (watchdog modes are a deliberate ASSERT)",
                       "bits of bit-field registers that no document describes are not compared; 0x0D8 bit 9 (S') is not compared",
                       "the DSP data path is used only while z_page = 0 and base + offset fits 16 bits (otherwise it is not the window)",
@@ -218,7 +218,7 @@ reg(Spec("C13", "c13_dma.cpp", needs=("shim",),
               "channel with matching unit size and direction, bursts x4/x8 with step = unit size and whole bursts, start "
               "addresses anywhere in the 17-bit data space (bank boundary straddled), started through the host accessor or the "
               "DSP data path. Oracle: element sequence of dma.md applied in order to a model memory / model external memory; "
-              "compared: whole 512 KiB image, ordered external access log, ICU bit 15; a transfer that makes more than 8x the documented number of memory accesses is stopped through the access observer and reported as not completing. Non-trivial = >= 2 dimensions with more "
+              "compared: whole 512 KiB image, ordered external access log, ICU bit 15; a transfer that makes more than 8x the documented number of memory accesses is stopped through the access observer and reported as not completing. A quarter of the cases are preceded by a burst read that ended inside a burst, then Reset(). Non-trivial = >= 2 dimensions with more "
               "than one element, or overlap; distinct by hash of the encoded history.",
          assumptions=["DSP-side addresses stay inside the 17-bit data space (beyond it is C18's subject); steps are added to the address as-is (unsigned)",
                       "external accesses are naturally aligned, unit size matched to the element size; bursts only with step = unit size and whole bursts",
@@ -235,7 +235,7 @@ reg(Spec("C11", "c11_memviews.cpp", needs=("shim", "optable"),
               "the model; MMIO clause on 11 plain registers: DSP-path access reaches the register, leaves the memory underneath, "
               "bypass does the opposite, guest load sees the register; the window is moved through the host accessor or, half of the "
               "time (bank 0), by a DSP-path write to the window-base register inside the window it moves, which must not reach the "
-              "memory underneath either. Non-trivial = non-zero value written or MMIO clause "
+              "memory underneath either. A quarter of the MMIO-clause steps repeat the DSP-path access under paging mode 1 with generated X / Y pages (register reached, memory digest unchanged). Non-trivial = non-zero value written or MMIO clause "
               "exercised; distinct by hash of the encoded history.",
          assumptions=["page mode 0 (the property's default paging mode); z_page in {0,1}; the MMIO clause is exercised with z_page = 0 (else ToMMIO asserts)",
                       "A32 accessors take a 17-bit data address (upper bits ignored, as documented by their mask)",
@@ -249,7 +249,7 @@ reg(Spec("C07", "c07_interrupts.cpp", needs=("shim", "optable"),
               "distinguishable banks), Exec(eint | dint | reti | retic | rep #n), TimerStart(timer, 1..5 cycles), host SendData, a "
               "one-word DMA start, the audio port running empty after 4096-cycle frames. After every instruction step the full "
               "register state, the two stack words at sp and the controller's pending register are compared with the independent "
-              "ICU + core interrupt model (context stores included). Instruction steps include eint / dint / reti / retic / rep and the program writing st0, st2, mod3 or stt2 with an immediate (writable fields take the value, the pending latches and everything outside the word stay). Vectored handlers also lie in program pages 2 / 3 (all 18 address bits of a vector matter). Non-trivial = history with >= 1 handler entry; distinct by "
+              "ICU + core interrupt model (context stores included). Instruction steps include eint / dint / reti / retic / rep and the program writing st0, st2, mod3 or stt2 with an immediate (writable fields take the value, the pending latches and everything outside the word stay). Vectored handlers also lie in program pages 2 / 3 (all 18 address bits of a vector matter). The program also writes icr ('mov #imm5, icr'); 'idlerun': the program waits on a self-branch while a timer of 1..6 cycles runs out inside ONE Run call of 2..40 cycles (same boundaries as stepping). Non-trivial = history with >= 1 handler entry; distinct by "
               "hash of the op list.",
          assumptions=["when one trigger raises several vectored IRQs the property does not say whose vector is latched: any of them is accepted",
                       "vector addresses and the sled stay below the data area (program and data space share one array)",
@@ -265,7 +265,7 @@ reg(Spec("C06", "c06_slicing.cpp", needs=("shim", "optable"),
               "<0x30000}, MU / pause bits; audio port with 0..16 queued words; n in [1, 20000]; 0..4 host events (SendData, "
               "Set/Clear/MaskSemaphore, software trigger, DataWrite, RecvData) at generated cycle positions. The false-condition self-branch falls through into ten instructions with visible effects before the real idle loop. Three runs from Reset: "
               "one Run per segment, a generated refinement with zero-length calls, n x Run(1) (n <= 5000) or a second refinement; "
-              "full observation + ordered callback log compared at every boundary. One budget in twelve lies between 66 000 and 206 000 cycles (slices above 2^16). Non-trivial = idle self-branch reached and a "
+              "full observation + ordered callback log compared at every boundary. One budget in twelve lies between 66 000 and 206 000 cycles (slices above 2^16). A third of the cases also queue / enable the second audio port (no audio callback installed on it). Non-trivial = idle self-branch reached and a "
               "handler ran or an audio frame was delivered; distinct by hash of the encoded case.",
          assumptions=["a self-branch is never the last instruction of an active block repeat nor the target of rep (excluded by the property)",
                       "Reset() between the three runs relies on C17 (Reset equals a fresh machine)"]))
@@ -309,7 +309,7 @@ reg(Spec("C19", "c19_threads.cpp", variant="tsan", needs=("optable", "lib"), wor
               "the join a fixed single-threaded drain (64 x Run(256)) must leave the last value of each channel on both sides "
               "and >= 1 handler entry; then one more SendData per channel, each followed by 4 x Run(128), must each be followed by a new "
               "handler entry (also into a still-full mailbox) and, where the DSP echoes, by a new host callback (also into a still-full "
-              "reply mailbox), and its value must be observed. Non-trivial = both threads observed each other's progress >= 3 times and >= 1 send; "
+              "reply mailbox), and its value must be observed. In half of the schedules timer 0 (auto-restart, period 7..15) interrupts on int1 with its own service routine, competing with the mailbox requests. Non-trivial = both threads observed each other's progress >= 3 times and >= 1 send; "
               "distinct by hash of the schedule.",
          assumptions=["the OS scheduler is not owned: interleaving coverage is statistical (pauses and slice sizes perturb it); the race "
                       "clause does not share this weakness because ThreadSanitizer is happens-before based",
